@@ -11,7 +11,9 @@
 //!                  (last <val>|-) (lrtnil true|false) (rc ok|"msg") (stack n) (quiet true|false))
 //!        outcome = (ok <val>) | (none) | (err Class) | (parse-error) | (compile-error Kind)
 //!                | (env-error ..) | (timeout) | (panic "file:line")
-//!        binds   = Repl's binding map (hook `Repl::verif_bindings`), variables only, sorted by name
+//!        binds-raw = Repl's binding map right after the line (hook `Repl::verif_bindings`), variables only
+//!        binds   = the same after one `request_variable` of an unbound name (which makes the REPL forget
+//!                  the variables the line bound but never stored); everything below is dumped after it
 //!        types   = `get_variables()`: (x "<formatted static type>") in index order
 //!        vars    = `get_variables()` order, each value fetched with `request_variable`
 //!        locals  = the REPL process's whole locals vector read through `Worker::verif_executor`
@@ -197,7 +199,17 @@ fn compile_error_kind(e: &quiver_compiler::compiler::Error) -> String {
 /// The state of the session as the user and the verifier can observe it, after a line.
 fn dump_state(sim: &mut Sim, repl: &mut Repl<TestEffect>, pid: ProcessId, out: &mut String) {
     let quiet = sim.settle();
-    // bindings (hook)
+    // the binding map as the compiler returned it and `evaluate` committed it (hook) ...
+    out.push_str(" (binds-raw");
+    for (name, idx) in repl.verif_bindings().iter() {
+        if let Some(i) = idx {
+            out.push_str(&format!(" ({} {})", name, i));
+        }
+    }
+    out.push(')');
+    // ... and after the REPL has looked a variable up once: `request_variable` (like `compact`)
+    // first forgets the variables beyond the locals count reported with the line's result
+    let _ = repl.request_variable(&mut sim.env, "__no_such_variable__");
     let binds = repl.verif_bindings();
     out.push_str(" (binds");
     for (name, idx) in binds.iter() {
